@@ -1602,6 +1602,10 @@ def run(ck: Check) -> None:
     campaign_chars(ck, 3000 if quick else 60000)
     campaign_ident(ck, names)
     campaign_helpers(ck, names[: 1500 if quick else 12000])
+    # (document level before function level: the first failing input of a run is the one written to the replay file)
+    from . import enum_callers
+
+    enum_callers.campaign_names(ck, 250 if quick else 2500)
     campaign_valid(ck, names, "adversarial names x 3 resolvers x option vectors", CFGS[:6] if quick else CFGS)
     if quick and not hung(ck):
         campaign_valid(ck, names[:250], "remaining option vectors", CFGS[6:])
@@ -1614,10 +1618,6 @@ def run(ck: Check) -> None:
     if not hung(ck):
         campaign_e2e(ck, 700 if quick else 6000, names)
         campaign_typeddict_syntax(ck)
-    if not hung(ck):
-        from . import enum_callers
-
-        enum_callers.campaign_names(ck, 250 if quick else 2500)
     if not hung(ck):
         campaign_td_objects(ck, 400 if quick else 6000)
         campaign_td_inherit(ck, 220 if quick else 4000)
